@@ -7,7 +7,10 @@ real binary is the correspondence run of `bin/check C12` (snapshot of a sandbox 
 
 Vocabulary: `Designated sf cwd d` — `d` is a path designated by a declared output (literal joined with the
 spokfile's directory, value of a named variable, a file the walk reported for an output glob — all made
-absolute the way `filepath.Abs` does) or the cache directory; `pathOf d <+: e.1` — the entry `e` is `d` or lies
+absolute the way `filepath.Abs` does, and then taken to where they REALLY are: `sf.phys`, the resolution of the
+symbolic links in the directory part, which is what the guard `containsSpokfile` compares since the repair of D14
+and what the operating system does with the argument of `os.RemoveAll`; `PhysOk sf` — that resolution returns clean
+absolute paths, nothing else is assumed about it) or the cache directory; `pathOf d <+: e.1` — the entry `e` is `d` or lies
 below it; `protectedPath sf p` — `p` is the spokfile, its directory or an ancestor. -/
 namespace Spok.Props.C12
 open Spok.Clean Spok.Judge.Env
@@ -74,7 +77,8 @@ theorem protectedPath_iff (sf : SpokFile) (hd : CleanAbs sf.dir) (p : Path) :
     spokfile's directory and the cwd): (1) every entry that is the spokfile, its directory or an ancestor
     survives spok's own cleaning, and (2) if some designated path is one of those, the result is an error and
     the tree is untouched (`fs' = fs`, no `RemoveAll` issued). -/
-theorem C12_protected (sf : SpokFile) (cwd : Str) (fs : FS) (hd : isAbs sf.dir = true) (hc : isAbs cwd = true) :
+theorem C12_protected (sf : SpokFile) (cwd : Str) (fs : FS) (hd : isAbs sf.dir = true) (hc : isAbs cwd = true)
+    (hph : PhysOk sf) :
     (∀ e ∈ fs, protectedPath sf e.1 = true → e ∈ (runClean sf cwd fs).fs) ∧
     ((∃ d, Designated sf cwd d ∧ protectedPath sf (pathOf d) = true) →
       (runClean sf cwd fs).err ≠ none ∧ (runClean sf cwd fs).fs = fs ∧ (runClean sf cwd fs).removed = []) := by
@@ -87,7 +91,7 @@ theorem C12_protected (sf : SpokFile) (cwd : Str) (fs : FS) (hd : isAbs sf.dir =
       rintro ⟨d, hdm, hpre⟩
       have hdes := mem_designatedList.1 hdm
       have h1 := hsafe d hdm
-      rw [containsSpokfile_designated hd hc hdes] at h1
+      rw [containsSpokfile_designated hd hc hph hdes] at h1
       have : protectedPath sf (pathOf d) = true := by
         unfold protectedPath at hp ⊢
         rw [within_iff] at hp ⊢
@@ -99,17 +103,17 @@ theorem C12_protected (sf : SpokFile) (cwd : Str) (fs : FS) (hd : isAbs sf.dir =
     have herr : (runClean sf cwd fs).err ≠ none := by
       intro h
       have h1 := (runClean_ok h).2.1 d (mem_designatedList.2 hdes)
-      rw [containsSpokfile_designated hd hc hdes, hp] at h1
+      rw [containsSpokfile_designated hd hc hph hdes, hp] at h1
       exact Bool.noConfusion h1
     exact ⟨herr, runClean_err_fs sf cwd fs herr⟩
 
 /-- (1) of `C12_protected` for `--clean` as a whole when there is no user task -/
 theorem C12_protected_handle (sf : SpokFile) (cwd : Str) (fs : FS) (run : FS → FS × Bool)
-    (hno : sf.hasTask cleanName = false) (hd : isAbs sf.dir = true) (hc : isAbs cwd = true) :
+    (hno : sf.hasTask cleanName = false) (hd : isAbs sf.dir = true) (hc : isAbs cwd = true) (hph : PhysOk sf) :
     ∀ e ∈ fs, protectedPath sf e.1 = true → e ∈ (handleClean sf cwd fs run).fs := by
   have h : handleClean sf cwd fs run = runClean sf cwd fs := by simp [handleClean, hno]
   rw [h]
-  exact (C12_protected sf cwd fs hd hc).1
+  exact (C12_protected sf cwd fs hd hc hph).1
 
 /-! ## a user-defined clean task -/
 
@@ -152,7 +156,7 @@ theorem C12_judge_accepts_model_failing (sf : SpokFile) (cwd : Str) (fs : FS) (r
     directories and a clean task that only prints (the run keeps every
     entry and adds at most the cache directory). -/
 theorem C12_judge_accepts_model (sf : SpokFile) (cwd : Str) (fs : FS) (run : FS → FS × Bool)
-    (hd : isAbs sf.dir = true) (hc : isAbs cwd = true)
+    (hd : isAbs sf.dir = true) (hc : isAbs cwd = true) (hph : PhysOk sf)
     (hrun : (run fs).2 = true ∧ (∀ e ∈ fs, e ∈ (run fs).1) ∧ ∀ e ∈ (run fs).1, e ∈ fs ∨ e.1 = pathOf sf.cacheDir) :
     c12 sf cwd (obsOfModel sf cwd fs run (sf.hasTask cleanName)) ≠ some false := by
   by_cases hclean : sf.hasTask cleanName = true
@@ -180,7 +184,7 @@ theorem C12_judge_accepts_model (sf : SpokFile) (cwd : Str) (fs : FS) (run : FS 
         rw [if_pos hany]
         simp only [List.any_eq_true] at hany
         obtain ⟨d, hdm, hp⟩ := hany
-        obtain ⟨h1, h2, _⟩ := (C12_protected sf cwd fs hd hc).2 ⟨d, mem_designatedList.1 hdm, hp⟩
+        obtain ⟨h1, h2, _⟩ := (C12_protected sf cwd fs hd hc hph).2 ⟨d, mem_designatedList.1 hdm, hp⟩
         rw [h2]
         cases hr : (runClean sf cwd fs).err with
         | none => exact absurd hr h1
@@ -188,7 +192,7 @@ theorem C12_judge_accepts_model (sf : SpokFile) (cwd : Str) (fs : FS) (run : FS 
       · rw [if_neg hany]
         have hsafe : ∀ d ∈ designatedList sf cwd, containsSpokfile d sf.path = false := by
           intro d hdm
-          rw [containsSpokfile_designated hd hc (mem_designatedList.1 hdm)]
+          rw [containsSpokfile_designated hd hc hph (mem_designatedList.1 hdm)]
           simp only [List.any_eq_true, not_exists, not_and] at hany
           simpa using hany d hdm
         have hok := C12_exact_succeeds sf cwd fs hdef hsafe
@@ -211,7 +215,7 @@ private def tree : FS :=
     ([['h'], ['q']], .file ['5']) ]
 
 private def sfWith (outs : List Str) (named : List Str) (vars : List (Str × Str)) : SpokFile :=
-  ⟨proj, vars, [⟨['t'], outs, named, []⟩]⟩
+  ⟨proj, vars, [⟨['t'], outs, named, []⟩], id⟩
 
 /-- an ordinary output: the file, the cache directory and its content go, everything else stays -/
 example : (runClean (sfWith [fileA] [] []) proj tree).err = none ∧
@@ -238,13 +242,26 @@ example : ∃ d, Designated (sfWith [[]] [] []) proj d ∧ protectedPath (sfWith
   ⟨_, .file (t := ⟨['t'], [[]], [], []⟩) (o := []) (by simp [sfWith]) (by simp), by decide⟩
 
 /-- a glob output: the files the walk reported are removed -/
-example : (runClean ⟨proj, [], [⟨['t'], [], [], [⟨['*', '.', 'o'], [fileA]⟩]⟩]⟩ proj tree).fs =
+example : (runClean ⟨proj, [], [⟨['t'], [], [], [⟨['*', '.', 'o'], [fileA]⟩]⟩], id⟩ proj tree).fs =
       [ ([['h']], .dir), ([['h'], ['p']], .dir), ([['h'], ['p'], spokfileName], .file ['1']),
         ([['h'], ['p'], ['k']], .file ['3']), ([['h'], ['q']], .file ['5']) ] := by decide
 
 /-- with a task named clean nothing is removed by spok, whatever the outputs say -/
-example : (handleClean ⟨proj, [], [⟨cleanName, [[]], [], []⟩]⟩ proj tree (fun fs => (fs, true))).fs = tree ∧
-    (handleClean ⟨proj, [], [⟨cleanName, [[]], [], []⟩]⟩ proj tree (fun fs => (fs, true))).removed = [] := by decide
+example : (handleClean ⟨proj, [], [⟨cleanName, [[]], [], []⟩], id⟩ proj tree (fun fs => (fs, true))).fs = tree ∧
+    (handleClean ⟨proj, [], [⟨cleanName, [[]], [], []⟩], id⟩ proj tree (fun fs => (fs, true))).removed = [] := by decide
+
+/-- a world with a symbolic link `/h/p/up -> ..`: the path `/h/p/up/p` really is `/h/p` -/
+private def physUp (s : Str) : Str := if s = ['/', 'h', '/', 'p', '/', 'u', 'p', '/', 'p'] then proj else s
+
+/-- the output `"up/p"` leads through that link back to the project directory: refused, tree untouched (D14) -/
+example : (runClean ⟨proj, [], [⟨['t'], [['u', 'p', '/', 'p']], [], []⟩], physUp⟩ proj tree).err = some (.refused proj) ∧
+    (runClean ⟨proj, [], [⟨['t'], [['u', 'p', '/', 'p']], [], []⟩], physUp⟩ proj tree).fs = tree := by decide
+
+/-- … while the link itself as an output is only a link (an entry of its own: nothing else goes) -/
+example : (runClean ⟨proj, [], [⟨['t'], [['u', 'p']], [], []⟩], physUp⟩ proj tree).err = none := by decide
+
+/-- the assumption on `phys` is met by the identity (a tree without links) -/
+example : PhysOk (sfWith [fileA] [] []) := fun _ h => h
 
 end Examples
 
